@@ -135,6 +135,14 @@ Theorem C13_builder_setters_set_exactly_their_option :
     cfg_opt (builder_config r calls) o = opt_value (map opt_call calls) o.
 Proof. exact builder_config_spec. Qed.
 
+(* build() hands its configuration over and leaves the builder untouched: building twice (with further setter calls in
+   between) gives the second connection the first configuration plus the later calls *)
+Theorem C13_build_leaves_the_builder_untouched :
+  forall r calls1 calls2 o, Forall (call_ok r) calls1 -> Forall (call_ok r) calls2 ->
+    cfg_opt (fst (build_twice r calls1 calls2)) o = opt_value (map opt_call calls1) o /\
+    cfg_opt (snd (build_twice r calls1 calls2)) o = opt_value (map opt_call (calls1 ++ calls2)) o.
+Proof. exact build_twice_spec. Qed.
+
 (* HONEST LIMIT of the clause "for every configuration the builders accept, setup completes and the peer sees one
    SETTINGS frame": if "accept" means "the setter takes the value" it is FALSE - the u64 setters take 2^62 and more,
    which no SETTINGS frame can carry (varint range), and setup then answers H3_INTERNAL_ERROR (since the repair of F4;
@@ -209,6 +217,7 @@ Print Assumptions C13_first_settings_applied.
 Print Assumptions C13_defaults_until_settings.
 Print Assumptions C13_sent_settings_are_applied_by_peer.
 Print Assumptions C13_builder_setters_set_exactly_their_option.
+Print Assumptions C13_build_leaves_the_builder_untouched.
 Print Assumptions C13_setup_completes_for_every_accepted_config_refuted.
 Print Assumptions C13_second_settings_frame_is_refused.
 Print Assumptions C13_peer_sees_the_error_code.
